@@ -11,7 +11,7 @@ from ..rng import digest
 from .. import observe as ob
 
 PROP = "C02"
-RUNS = {"quick": 6000, "thorough": 400000}
+RUNS = {"quick": 6000, "thorough": 100000}
 WALL = {"quick": 280, "thorough": 3500}
 RULE = ("one run = one generated GFA1/GFA2 document, a delivery schedule, and a history of "
         "add/rm/disconnect/rename ops; closed_symmetric checked after every op; distinct = distinct "
